@@ -2,6 +2,7 @@
 
 use crate::util::Ctx;
 
+pub mod c01;
 pub mod c02;
 pub mod c04;
 pub mod c06;
@@ -14,6 +15,7 @@ pub mod c19;
 
 pub fn dispatch(ctx: &mut Ctx) -> bool {
 	match ctx.id.as_str() {
+		"C01" => c01::run(ctx),
 		"C02" => c02::run(ctx),
 		"C04" => c04::run(ctx),
 		"C06" => c06::run(ctx),
@@ -33,6 +35,7 @@ pub fn dispatch(ctx: &mut Ctx) -> bool {
 pub fn confirm(key: &str) -> Option<Option<String>> {
 	let prop = key.split('.').next().unwrap_or("");
 	match prop {
+		"C01" => c01::confirm(key),
 		"C02" => c02::confirm(key),
 		"C04" => c04::confirm(key),
 		"C06" => c06::confirm(key),
